@@ -30,6 +30,8 @@ type Case struct {
 	// Late: configuration calls made after a first Render of the same File; the File is then
 	// rendered again and must equal gofmt of an identically configured NoFormat File.
 	Late  []recipe.FileOp   `json:"late,omitempty"`
+	// Staged: see checkCore (a statement finished after a first render)
+	Staged bool `json:"staged,omitempty"`
 	File  *recipe.File      `json:"file"`
 	Forms *recipe.Decisions `json:"forms,omitempty"` // form policy decisions (so that ...Func groups exist to render)
 	Note  string            `json:"note,omitempty"`
@@ -223,6 +225,61 @@ func checkCore(c Case) error {
 			return fmt.Errorf("second Render returned an error but wrote %d bytes", wa2.buf.Len())
 		}
 	}
+	if c.Staged && len(c.File.Body) > 0 {
+		// one top-level statement reaches the File incomplete (its first call only), the File is rendered — the
+		// formatted File usually fails at that point, its unformatted twin does not —, the statement is finished
+		// through the variable the caller kept, and the File is rendered again
+		which := -1
+		for i, n := range c.File.Body {
+			if n != nil && n.Kind == recipe.KStmt && n.Ref == 0 && len(n.Calls) >= 2 {
+				which = i
+				break
+			}
+		}
+		if which >= 0 {
+			staged := func(fr *recipe.File) (*countingWriter, error, error) {
+				var err error
+				w := &countingWriter{}
+				perr := hx.Safe(func() error {
+					shell := fr.Clone()
+					shell.Body = nil
+					b := &recipe.Builder{}
+					f := b.File(shell)
+					var finish func()
+					for i, n := range fr.Body {
+						if i == which {
+							var st *jen.Statement
+							st, finish = b.Partial(n, 1)
+							f.Add(st)
+							continue
+						}
+						b.AddToFile(f, n)
+					}
+					_ = f.Render(&bytes.Buffer{})
+					finish()
+					err = f.Render(w)
+					return nil
+				})
+				return w, err, perr
+			}
+			wa, errA, pa := staged(c.File)
+			wb, errB, pb := staged(noFormat(c.File))
+			if pa != nil || pb != nil {
+				return fmt.Errorf("a statement finished after a first render: panic: %v %v", pa, pb)
+			}
+			if errA == nil {
+				if errB != nil {
+					return fmt.Errorf("a statement finished after a first render: the formatted File renders, its NoFormat twin fails: %v", errB)
+				}
+				want, err := format.Source(wb.buf.Bytes())
+				if err != nil || !bytes.Equal(want, wa.buf.Bytes()) {
+					return fmt.Errorf("a top-level statement was handed to the File incomplete, the File rendered, the statement finished, the File rendered again: the formatted output is not gofmt of what the NoFormat twin renders after the same steps (%v)\n--- formatted ---\n%s\n--- gofmt(raw) ---\n%s", err, wa.buf.Bytes(), want)
+				}
+			} else if wa.calls != 0 {
+				return fmt.Errorf("a statement finished after a first render: Render returned an error but wrote %d bytes", wa.buf.Len())
+			}
+		}
+	}
 	// fragment renders: every body statement and every group obtained through a ...Func callback
 	c.Forms.Rewind()
 	bf := &recipe.Builder{Forms: c.Forms}
@@ -344,7 +401,17 @@ func TestC02(t *testing.T) {
 		for i := 0; i < n; i++ {
 			f.Body = append(f.Body, gen.Decl(rt, 3))
 		}
-		c := Case{File: f, Forms: forms(rt), AfterPanic: rapid.IntRange(0, 5).Draw(rt, "afterpanic") == 0}
+		if rapid.IntRange(0, 2).Draw(rt, "comments") == 0 {
+			// comments at the end of items and as items of their own, one-line and multi-line
+			dec := &recipe.Decisions{Draw: func(n int) int { return rapid.IntRange(0, n-1).Draw(rt, "place") }}
+			texts := []string{"one line", "first line\nsecond line", "x is the answer\n(nearly)", "trailing blanks   ", "a\n\tindented\nb\n", "TODO(x): y", "100% %d"}
+			f2, placed := mutate.InjectComments(f, dec, 3, func() string { return rapid.SampledFrom(texts).Draw(rt, "ctext") })
+			if len(placed) > 0 {
+				f = f2
+				r.Class("plausible_with_comments")
+			}
+		}
+		c := Case{File: f, Forms: forms(rt), AfterPanic: rapid.IntRange(0, 5).Draw(rt, "afterpanic") == 0, Staged: rapid.IntRange(0, 2).Draw(rt, "staged") == 0}
 		if rapid.Bool().Draw(rt, "late") {
 			// configuration that does not touch the body, applied after the first render
 			c.Late = gen.FileSettings(rt).Ops
